@@ -137,8 +137,10 @@ def inprocess(ctx):
             add(beh, "b%d" % bi, rnd.randrange(1000))
         else:
             long_ones.append((bi, beh))
-    if ctx.quick and len(long_ones) > 400:
-        long_ones = rnd.sample(long_ones, 400)
+    limit = ctx.pick(400, 6000)
+    if len(long_ones) > limit:
+        long_ones = rnd.sample(long_ones, limit)
+    ctx.note("sampled_long_behaviours", len(long_ones))
     for bi, beh in long_ones:
         add(beh, "b%d" % bi, rnd.randrange(1000))
     out = L.play_inprocess(ctx, runs, tag="beh")
